@@ -5,5 +5,5 @@ FAMILIES = [{'name': 'tt', 'ids': [1, 2, 3, 4], 'vals': [5], 'maxv': 7, 'maxops'
 
 
 def run(prop, tier, replay):
-    return T.run(prop, tier, FAMILIES, {'VersionsImmutable'}, reread=True,
+    return T.run(prop, tier, FAMILIES, {'VersionsImmutable'}, replay=replay, reread=True,
                  assumptions=['concurrency is expressed as stale read versions + commit order (commit atomicity is C01/C02)', 'scenarios keep the key column unique (lance does not enforce keys)', 'conflict_retries = 0 so a retryable conflict surfaces instead of re-executing'])
